@@ -2,7 +2,7 @@
 delimiter balance, token / directive / category agreement, metadata-key agreement, per-iteration updates."""
 import ast
 
-from ..core import AnalysisError, norm, short, walk_local, parent_chain
+from ..core import AnalysisError, norm, short, walk_local, parent_chain, reaching_assign
 from ..cfg import cfg_of, node_exprs
 from ..pairing import alts_of, negate
 from . import register
@@ -181,6 +181,113 @@ def _separator_updates(R, cls, rid):
     return n
 
 
+def _bit_ranges(R, cls, rid):
+    """every bit range written next to a cable name: the bounds come from the one function that turns a wire into its bit index
+    (position + lower_index), and from wires of that same cable expression"""
+    conv = None
+    writers = {}
+    for mname, f in cls.methods.items():
+        if len(f.params) == 4 and any((isinstance(c, ast.Attribute) and norm(c).startswith("vt.OPEN_BRACKET")) or
+                                      (isinstance(c, ast.Constant) and c.value == "[") for c in ast.walk(f.node)):
+            writers[mname] = f
+        if len(f.params) == 2 and any(isinstance(c, ast.Attribute) and c.attr == "lower_index" for c in ast.walk(f.node)) \
+                and any(isinstance(r, ast.Return) and isinstance(r.value, ast.BinOp) for r in ast.walk(f.node)):
+            conv = f
+    # wrappers that forward (bundle, low, high) unchanged to a range writer
+    for mname, f in cls.methods.items():
+        if len(f.params) == 4 and mname not in writers:
+            for c in walk_local(f.node):
+                if isinstance(c, ast.Call) and isinstance(c.func, ast.Attribute) and norm(c.func.value) == "self" and c.func.attr in writers \
+                        and [norm(x) for x in c.args] == f.params[1:]:
+                    writers[mname] = f
+    if not writers or conv is None:
+        raise AnalysisError("anchor vanished: the Verilog range writer (name[hi:lo]) or the wire-to-bit-index function")
+    n = 0
+    for mname, f in sorted(cls.methods.items()):
+        assigns = {}
+        families = {}
+        loopvars = set()
+        for a in walk_local(f.node):
+            if isinstance(a, ast.Assign):
+                for t in a.targets:
+                    if isinstance(t, ast.Name):
+                        assigns.setdefault(t.id, []).append(a.value)
+                    elif isinstance(t, ast.Tuple):
+                        fam = "family@%s" % norm(a.value)[:40]
+                        for e in t.elts:
+                            if isinstance(e, ast.Name):
+                                families[e.id] = fam
+            elif isinstance(a, ast.For):
+                for e in ast.walk(a.target):
+                    if isinstance(e, ast.Name):
+                        loopvars.add(e.id)
+
+        def origins(e, depth=0, seen=None, at=None):
+            """(set of root names, converted through the index function?, raw position used?); `at` = the node from which a name is
+            read, used to pick the assignment that reaches it in straight-line code"""
+            seen = seen if seen is not None else set()
+            if isinstance(e, ast.Name) and at is not None and e.id not in families and e.id not in f.params and e.id not in loopvars:
+                ra = reaching_assign(at, e.id)
+                if ra is not None and isinstance(ra.targets[0], ast.Name):
+                    return origins(ra.value, depth + 1, seen, at=ra)
+            if depth > 8:
+                return {"?"}, False, False
+            if isinstance(e, ast.Constant):
+                return set(), True, False
+            if isinstance(e, ast.Call) and isinstance(e.func, ast.Attribute) and norm(e.func.value) == "self" and e.func.attr == conv.name and e.args:
+                r, _, raw = origins(e.args[0], depth + 1, seen)
+                return r, True, raw
+            if isinstance(e, ast.Call) and isinstance(e.func, ast.Attribute) and e.func.attr == "index":
+                r, _, _ = origins(e.func.value, depth + 1, seen)
+                return r, False, True
+            if isinstance(e, ast.BinOp):
+                r1, c1, w1 = origins(e.left, depth + 1, seen)
+                r2, c2, w2 = origins(e.right, depth + 1, seen)
+                return r1 | r2, c1 and c2, w1 or w2
+            if isinstance(e, (ast.Attribute, ast.Subscript)):
+                return origins(e.value, depth + 1, seen)
+            if isinstance(e, ast.Name):
+                if e.id in families:
+                    return {families[e.id]}, False, False
+                if e.id in f.params or e.id in loopvars or e.id == "self":
+                    return {e.id}, False, False
+                if e.id in seen or e.id not in assigns:
+                    return set(), True, False
+                seen = seen | {e.id}
+                roots, conv_all, raw_any = set(), True, False
+                for v in assigns[e.id]:
+                    r, c, w = origins(v, depth + 1, seen)
+                    roots |= r
+                    conv_all = conv_all and c
+                    raw_any = raw_any or w
+                return roots, conv_all, raw_any
+            return {"?"}, False, False
+
+        for c in walk_local(f.node):
+            if mname in writers:
+                continue  # a wrapper forwards its own parameters
+            if not (isinstance(c, ast.Call) and isinstance(c.func, ast.Attribute) and norm(c.func.value) == "self" and c.func.attr in writers
+                    and len(c.args) == 3):
+                continue
+            n += 1
+            croots, _, _ = origins(c.args[0], at=c)
+            problems = []
+            for which, a in (("low", c.args[1]), ("high", c.args[2])):
+                roots, converted, raw = origins(a, at=c)
+                if raw or not converted:
+                    problems.append(("raw-position", "the %s bound `%s` is a position in a list, not a bit index: it does not go through %s, so the "
+                                     "cable's lower_index is lost (wire [5:2] w comes out as w[3:0])" % (which, norm(a), conv.name)))
+                elif roots and croots and "?" not in roots and "?" not in croots and not (roots & croots):
+                    problems.append(("foreign-wire", "the %s bound `%s` is computed from `%s` while the name written is that of `%s`: the range of one "
+                                     "cable is written next to the name of another" % (which, norm(a), "/".join(sorted(roots)), norm(c.args[0]))))
+            if problems:
+                code, txt = problems[0]
+                R.bad(rid, "%s|%s|%s" % (f.key, code, norm(c.args[0])), f.loc(c), "%s: %s" % (f.qualname, txt))
+            else:
+                R.ok(rid, "%s: range of %s" % (f.qualname, norm(c.args[0])), f.loc(c))
+    return n
+
+
 @register("C04",
           "Static analysis of the Verilog writer against the Verilog reader (narrow claim: the text written is accepted by the reader; which bit "
           "lands on which pin is a runtime property and is not decided): B1' path-sensitive delimiter balance — ( ) { } [ ] module/endmodule "
@@ -264,6 +371,10 @@ def check_c04(ctx, R):
     n5 += _position_counters(ctx, R, B.cls, "B5'", 0)
     R.count("per-iteration update sites (B5')", n5)
     R.floor("per-iteration update sites (B5')", 1)
+    R.rule("B6'", "bit ranges: bounds go through the wire-to-bit-index function and belong to the cable whose name is written")
+    n6 = _bit_ranges(R, B.cls, "B6'")
+    R.count("range emissions (B6')", n6)
+    R.floor("range emissions (B6')", 6)
 
 
 # ---------------------------------------------------------------------------------------------- C18
@@ -434,3 +545,48 @@ def check_c18(ctx, R):
                     R.ok("B6", "%s: %s.index()" % (f.qualname, recv), f.loc(c))
     R.count("merge loops / emitted indices (B6)", n6)
     R.floor("merge loops / emitted indices (B6)", 2)
+    # B7: a bus grown on demand to hold bit I is then read at bit I
+    R.rule("B7", "grow-then-index agreement: `while len(X.f) < I + 1: X.create_…()` is followed by `X.f[I]` with the same I")
+    n7 = 0
+    for f in pars.all_funcs():
+        for w in walk_local(f.node):
+            if not (isinstance(w, ast.While) and isinstance(w.test, ast.Compare) and len(w.test.ops) == 1 and isinstance(w.test.ops[0], ast.Lt)
+                    and isinstance(w.test.left, ast.Call) and norm(w.test.left.func) == "len" and w.test.left.args
+                    and isinstance(w.test.left.args[0], ast.Attribute)):
+                continue
+            lst_ = norm(w.test.left.args[0])
+            bound = w.test.comparators[0]
+            idx = None
+            if isinstance(bound, ast.BinOp) and isinstance(bound.op, ast.Add):
+                if isinstance(bound.right, ast.Constant) and bound.right.value == 1:
+                    idx = norm(bound.left)
+                elif isinstance(bound.left, ast.Constant) and bound.left.value == 1:
+                    idx = norm(bound.right)
+            if idx is None:
+                continue
+            par = getattr(w, "_parent", None)
+            blk = None
+            for b in ("body", "orelse", "finalbody"):
+                if w in getattr(par, b, []):
+                    blk = getattr(par, b)
+            if blk is None:
+                continue
+            use = None
+            for st in blk[blk.index(w) + 1:]:
+                for x in ast.walk(st):
+                    if isinstance(x, ast.Subscript) and norm(x.value) == lst_ and not isinstance(x.slice, ast.Slice):
+                        use = x
+                        break
+                if use is not None or any(isinstance(x, ast.Name) and isinstance(x.ctx, ast.Store) and x.id in (idx, lst_.split(".")[0]) for x in ast.walk(st)):
+                    break
+            if use is None:
+                continue
+            n7 += 1
+            if norm(use.slice) == idx:
+                R.ok("B7", "%s: %s grown for and read at [%s]" % (f.qualname, lst_, idx), f.loc(use))
+            else:
+                R.bad("B7", "%s|%s grown for %s" % (f.key, lst_, idx), f.loc(use),
+                      "%s grows `%s` until it can hold bit `%s` and then reads `%s`: the bit that is connected is not the one the text names "
+                      "(or the read runs off the end of the bus)" % (f.qualname, lst_, idx, norm(use)))
+    R.count("grow-then-index sites (B7)", n7)
+    R.floor("grow-then-index sites (B7)", 4)
